@@ -180,3 +180,49 @@ func (l *refLayout) blocksOf(k int) map[int]bool {
 	}
 	return m
 }
+
+// noForgery is the Go counterpart of JournalSpec.no_forgery: in every block of the damaged
+// stream, the chunks a sequential parse (zero header / type / length / checksum tests) accepts
+// are a run of the original chunks of that block from the block start, byte-identical.
+func noForgery(orig []byte, l *refLayout, dmg []byte) bool {
+	// original chunks per block
+	per := map[int][]chunkExt{}
+	for _, c := range l.Chunks {
+		per[c.Off/refBlock] = append(per[c.Off/refBlock], c)
+	}
+	for b := 0; b*refBlock < len(dmg); b++ {
+		lo, hi := b*refBlock, (b+1)*refBlock
+		if hi > len(dmg) {
+			hi = len(dmg)
+		}
+		blk := dmg[lo:hi]
+		oc := per[b]
+		j, k := 0, 0
+		for j+refHeader <= len(blk) {
+			sum := binary.LittleEndian.Uint32(blk[j : j+4])
+			n := int(binary.LittleEndian.Uint16(blk[j+4 : j+6]))
+			t := blk[j+6]
+			if sum == 0 && n == 0 && t == 0 {
+				break
+			}
+			if t < refFull || t > refLast || j+refHeader+n > len(blk) {
+				break
+			}
+			if refMaskedCRC(t, blk[j+refHeader:j+refHeader+n]) != sum {
+				break
+			}
+			// accepted: must be the k-th original chunk of this block
+			if k >= len(oc) || oc[k].Off != lo+j || oc[k].Len != n || oc[k].Typ != t {
+				return false
+			}
+			for x := 0; x < n; x++ {
+				if blk[j+refHeader+x] != orig[lo+j+refHeader+x] {
+					return false
+				}
+			}
+			k++
+			j += refHeader + n
+		}
+	}
+	return true
+}
